@@ -124,3 +124,42 @@ func VH_stall_deadlines_per_command() {
 		vReach("none")
 	}
 }
+
+var vQueued []wire.Message
+
+func vStubQueueMessage(p *Peer, msg wire.Message, doneChan chan<- struct{}) { vQueued = append(vQueued, msg) }
+
+// C18(5) - BIP31 keep-alive bookkeeping, sequential: a ping is answered with exactly one pong carrying the ping's
+// nonce iff the negotiated version is above 60000 (BIP0031Version); a pong clears the outstanding ping (and measures
+// the round trip) only when its nonce equals the (non-zero) outstanding one and the version is above 60000 - a
+// stale, unsolicited or zero-nonce pong changes nothing.
+//verif:opts reach=answered,silent,matched,ignored noverride=peer.go:Peer.QueueMessage:vStubQueueMessage
+func VH_ping_pong_nonce_bookkeeping() {
+	vQueued = nil
+	pver := vNondetU32("negotiatedVersion")
+	p := &Peer{protocolVersion: pver}
+	ping := vNondetU64("pingNonce")
+	p.handlePingMsg(wire.NewMsgPing(ping))
+	if pver > wire.BIP0031Version {
+		vAssert(len(vQueued) == 1, "exactly one reply")
+		pong, ok := vQueued[0].(*wire.MsgPong)
+		vAssert(ok && pong.Nonce == ping, "a pong with the ping's nonce")
+		vReach("answered")
+	} else {
+		vAssert(len(vQueued) == 0, "old peers get no pong")
+		vReach("silent")
+	}
+	outstanding := vNondetU64("outstanding")
+	got := vNondetU64("pongNonce")
+	p.lastPingNonce = outstanding
+	p.lastPingMicros = -1
+	p.lastPingTime = time.Unix(1600000000, 0)
+	p.handlePongMsg(wire.NewMsgPong(got))
+	if pver > wire.BIP0031Version && outstanding != 0 && got == outstanding {
+		vAssert(p.lastPingNonce == 0, "the matching pong clears the outstanding ping")
+		vReach("matched")
+	} else {
+		vAssert(p.lastPingNonce == outstanding && p.lastPingMicros == -1, "any other pong changes nothing")
+		vReach("ignored")
+	}
+}
